@@ -319,6 +319,8 @@ def shard_main(prop, tier, seed, shard, nshards, out, budget_s):
         assert_repo_tree()
         mod = load_check(prop)
         ctx = Ctx(prop, tier, seed, shard, nshards, deadline=t0 + budget_s)
+        if shard == 0:
+            replay_corpus(ctx, mod)
         mod.run(ctx)
         res.update(evaluations=ctx.evaluations, nt=sorted(ctx.nt), classes=dict(ctx.classes), samples=ctx.samples,
                    known_hits=dict(ctx.known_hits), violations=ctx.violations, notes=ctx.notes,
@@ -331,6 +333,52 @@ def shard_main(prop, tier, seed, shard, nshards, out, budget_s):
     with open(out, "w") as f:
         json.dump(res, f, default=str)
     return 0
+
+
+def replay_corpus(ctx, mod):
+    """Regression tier: re-execute the saved failing inputs of repaired defects and of the seeded changes
+    (corpus/replays/<prop>_*.json, written by tools/fix_regress.py and tools/seed_regress.py) before any generated
+    case, bypassing Hypothesis.  They pass on the tree they were saved from; one that fails is reported with the
+    corpus file itself as the replay file.  A file the current check can no longer interpret is counted as stale
+    (tools/selftest.py reports those), never as a violation."""
+    d = os.path.join(VERIF, "corpus", "replays")
+    if not os.path.isdir(d):
+        return
+    stats = ctx.notes.setdefault("regression_inputs", {"replayed": 0, "stale": 0})
+    for fn_ in sorted(os.listdir(d)):
+        if not (fn_.startswith(ctx.prop + "_") and fn_.endswith(".json")):
+            continue
+        path = os.path.join(d, fn_)
+        try:
+            rec = json.load(open(path))
+            fn = mod.SUBCHECKS[rec["sub"]]
+            case = rec["case"]
+        except Exception:
+            stats["stale"] += 1
+            continue
+        stats["replayed"] += 1
+        ctx.evaluations += 1
+        ctx.cls("regression_input")
+        v = None
+        try:
+            fn(ctx, case)
+        except KnownSkip:
+            pass
+        except Violation as e:
+            v = e
+        except RecursionError:
+            stats["stale"] += 1
+        except Exception as e:
+            if exc_in_dendropy(e):
+                best, _ = innermost_dendropy_frame(e)
+                v = Violation("unexpected_exception", "%s:%s@%s" % (rec["sub"], type(e).__name__, best[0]),
+                              "%s: %s (at %s:%s)" % (type(e).__name__, e, best[1], best[2]))
+            else:
+                stats["stale"] += 1
+        if v is not None:
+            ctx.violations.append({"property": ctx.prop, "sub": rec["sub"], "clause": v.clause, "key": v.key,
+                                   "detail": str(v.detail)[:2000], "case": case,
+                                   "path": os.path.relpath(path, VERIF)})
 
 
 def merge_notes(dst, src):
